@@ -50,10 +50,36 @@ pub fn generate(stream: &str, n: usize, seed: u64, out: &mut dyn Write) {
     }
 }
 
+/// NAL bodies (zero-free, or mixed) joined by 3-/4-byte start codes or zero runs; cut points mostly next to the
+/// separators (inside 00|00|01, right after the 01, one or two bytes later) so that every split of a start code
+/// across pushes, followed by pieces of every size, occurs
+fn directed_annexb(r: &mut Rng) -> (Vec<u8>, Vec<Vec<u8>>) {
+    let mut d = vec![]; let mut marks = vec![];
+    for _ in 0..r.below(3) { d.push(r.pick8(&[0, 0, 1, 0x55])); }
+    for _ in 0..(1 + r.below(4)) {
+        let sep: &[u8] = match r.below(6) { 0 => &[0, 0, 0, 1], 1 => &[0, 0, 0], 2 => &[0, 0, 0, 0, 1], 3 => &[0, 0], _ => &[0, 0, 1] };
+        for k in 0..=sep.len() { marks.push(d.len() + k); }
+        d.extend_from_slice(sep);
+        let n = match r.below(4) { 0 => 0, 1 => r.below(4), 2 => 16 + r.below(24), _ => r.below(16) };
+        let zero_free = r.below(3) != 0;
+        for _ in 0..n { d.push(if zero_free { 1 + (r.next() % 255) as u8 } else { r.pick8(&[0, 1, 2, 3, 0x65, 0xff]) }); }
+        marks.push(d.len());
+    }
+    for _ in 0..r.below(3) { d.push(0); }
+    let mut cuts: Vec<usize> = vec![];
+    for m in &marks { if r.below(3) == 0 && *m <= d.len() { cuts.push(*m); } }
+    for _ in 0..r.below(3) { cuts.push(r.below(d.len() as u64 + 1) as usize); }
+    cuts.sort(); cuts.dedup();
+    let mut parts = vec![]; let mut last = 0;
+    for c in cuts { parts.push(d[last..c].to_vec()); last = c; if r.below(8) == 0 { parts.push(vec![]); } }
+    parts.push(d[last..].to_vec());
+    (d, parts)
+}
+
 fn gen_annexb(r: &mut Rng, out: &mut dyn Write) {
     let maxlen = if r.below(10) == 0 { 400 } else { 40 };
-    let d = stream_bytes(r, maxlen, &[0, 0, 0, 1, 1, 2, 3, 0x65]);
-    let parts = partition(r, &d);
+    let (d, parts) = if r.below(2) == 0 { directed_annexb(r) } else { let d = stream_bytes(r, maxlen, &[0, 0, 0, 1, 1, 2, 3, 0x65]); let p = partition(r, &d); (d, p) };
+    let _ = &d;
     let mut line = String::from("annexb");
     let mid_resets = r.below(3) == 0;
     for p in &parts {
@@ -199,16 +225,22 @@ fn gen_avcc(r: &mut Rng, out: &mut dyn Write) {
         let mut w = W::default(); w.ue(r.below(3)).ue(r.below(3)).b(false).b(false).ue(0).ue(0).ue(0).b(false).u(2, 0).se(0).se(0).se(0).b(false).b(false).b(false);
         let mut n = vec![0x68u8]; n.extend(escape(&w.trail())); n
     };
+    // an entry padded with escaped cabac_zero_words to a length around the 16-bit limit
+    let pad_to = |mut nal: Vec<u8>, len: usize| -> Vec<u8> { while nal.len() + 3 <= len { nal.extend_from_slice(&[0, 0, 3]); } while nal.len() < len { nal.push(0); } nal };
+    let long_len = if r.below(2500) == 0 { Some(r.pick(&[65533, 65534, 65535]) as usize) } else if r.below(40) == 0 { Some(r.pick(&[255, 256, 257, 1000]) as usize) } else { None };
+    let long_at = r.below(4) as usize; let mut entry_no = 0usize; // exactly one entry of the record is padded
     let nsps = if r.below(12) == 0 { 31 } else { r.below(3) }; d.push((if r.below(6) == 0 { r.next() as u8 & 0xe0 } else { 0xe0 }) | nsps as u8);
     let (p, c, l) = (d[1], d[2], d[3]);
     for _ in 0..nsps {
         let nal = match r.below(8) { 0 => vec![], 1 => vec![r.pick8(&[0x67, 0x68, 0xe7, 0x07])], 2 => { let mut v = vec![r.pick8(&[0x67, 0x67, 0x68, 0xe7])]; for _ in 0..r.below(5) { v.push(r.next() as u8); } v }
             3 => { let pr = r.pick8(&[0x42, 0x64]); mk_sps(r, pr, c, l) } _ => mk_sps(r, p, c, l) };
+        let nal = match long_len { Some(ll) if entry_no == long_at => pad_to(nal, ll), _ => nal }; entry_no += 1;
         d.push((nal.len() >> 8) as u8); d.push(nal.len() as u8); d.extend(nal);
     }
     let npps = if r.below(20) == 0 { 255 } else { r.below(3) }; d.push(npps as u8);
     for _ in 0..npps {
         let nal = match r.below(8) { 0 => vec![], 1 => vec![r.pick8(&[0x68, 0x67, 0xe8])], 2 => { let mut v = vec![r.pick8(&[0x68, 0x68, 0x67, 0xe8])]; for _ in 0..r.below(5) { v.push(r.next() as u8); } v } _ => mk_pps(r) };
+        let nal = match long_len { Some(ll) if entry_no == long_at => pad_to(nal, ll), _ => nal }; entry_no += 1;
         d.push((nal.len() >> 8) as u8); d.push(nal.len() as u8); d.extend(nal);
     }
     for _ in 0..r.below(3) { d.push(r.next() as u8); }
@@ -382,7 +414,7 @@ pub fn gen_pps(r: &mut Rng, spss: &[SpsInfo]) -> (Vec<u8>, PpsInfo) {
             0 => { for _ in 0..=n { w.ue(if f.hit(r, 4) { size.min((1u64 << 32) - 2) } else if r.below(6) == 0 { size - 1 } else { r.below(size.min(50)) }); } }
             2 => { for _ in 0..n { let a = r.below(size.min(60) + 1); let b = if f.hit(r, 4) { r.pick(&[size + 1, a.saturating_sub(1)]) } else { (a + r.below(4)).min(size) }; w.ue(a).ue(b.min((1u64 << 32) - 2)); } }
             3 | 4 | 5 => { w.b(r.flag()).ue(if f.hit(r, 3) { size.min((1u64 << 32) - 2) } else if r.below(4) == 0 { size - 1 } else { r.below(size.min(50)) }); }
-            6 => { let cnt = if f.hit(r, 3) { size.min(3000) } else if r.below(6) == 0 { (size - 1).min(3000) } else { r.below(12).min(size - 1) }; w.ue(cnt); let bits = [0, 1, 2, 2, 3, 3, 3, 3][n as usize]; for _ in 0..=cnt { w.u(bits, if bits == 0 { 0 } else if f.hit(r, 9) { (n + 1).min((1 << bits) - 1) } else { r.below(n + 1) }); } }
+            6 => { let cnt = if f.hit(r, 3) { r.pick(&[size.min(3000), 1 << 16, 1 << 24, (1 << 31) - 1, (1u64 << 32) - 2]) } else if r.below(6) == 0 { (size - 1).min(3000) } else { r.below(12).min(size - 1) }; w.ue(cnt); let bits = [0, 1, 2, 2, 3, 3, 3, 3][n as usize]; for _ in 0..=cnt.min(3000) { w.u(bits, if bits == 0 { 0 } else if f.hit(r, 9) { (n + 1).min((1 << bits) - 1) } else { r.below(n + 1) }); } }
             _ => {}
         }
     }
